@@ -181,6 +181,10 @@ def run(ctx):
     cz = all(classify_write(prog.an(r.CLOSE), s) == ('=', '0_usize') for bb, i, s in r.field_writes(r.CLOSE, r.SLOTS, r.MAX))
     ctx.ob('R11.2', 'max_size written only by resize (and zeroed by close)', set(mw) <= {r.RESIZE.name, r.CLOSE.name} and r.RESIZE.name in mw and cz, '', str(mw), construct='max-writers')
 
+    # ---- R11.9 size and users return to their resting relation on every path (effect ledger) --------------------
+    from .ledger_rules import ledger_obligations
+    ledger_obligations(ctx, r, 'R11.9', (1, 2))
+
     ctx.not_decided += ['exactness "at every quiescent point of every history" as a numeric statement: decided is the pairing of every increment with exactly one decrement per path (with C01/C03/C09) and that no subtraction can wrap',
                         '"size exceeds max_size only as the residue of a shrink" fails as a consequence of known finding D1 (C07)']
     ctx.assumptions += ['Relaxed atomics on a single counter are coherent', 'std Mutex']
